@@ -106,3 +106,56 @@ def util_hex(prog):
     if nb < 3:
         raise AnalysisBroken('UTIL-HEX: only %d digit branches recognised' % nb)
     return RuleResult('UTIL-HEX', obs, 3, {})
+
+
+LIBC_NUM = ('strtol', 'strtoul', 'strtoll', 'strtoull', 'atoi', 'atol', 'sscanf', 'strtod')
+
+
+def util_dec(prog):
+    """UTIL-DEC: the interactive commands' number parser reads decimals itself: UtilContext::get_num accumulates
+    n*10 + (c - '0') for exactly '0'..'9' and neither it nor get_hex/get_address/get_range hand the text to a libc
+    converter (strtoul(..., 0) reads a leading 0 as octal, accepts whitespace and signs the commands do not)."""
+    obs = []
+    for q in ('UtilContext::get_num', 'UtilContext::get_hex', 'UtilContext::get_address', 'UtilContext::get_range'):
+        fns = [f for f in prog.fns.values() if f.q.split('(')[0] == q]
+        if not fns:
+            raise AnalysisBroken('UTIL-DEC: %s not found' % q)
+        for fn in fns:
+            bad = [c for c in fn.calls() if (callee(c) or '').split('(')[0] in LIBC_NUM]
+            obs.append(Ob('UTIL-DEC', fn.file, bad[0]['l'] if bad else fn.line, fn.q, 'no-libc-conversion', VIOLATED if bad else DISCHARGED,
+                          '%s converts the text with %s(): its prefix rules (leading 0 = octal with base 0, leading whitespace, '
+                          'signs) differ from the number spellings the commands document' % (fn.q, callee(bad[0])) if bad else '',
+                          'parses its digits itself', False))
+    fn = [f for f in prog.fns.values() if f.q.split('(')[0] == 'UtilContext::get_num'][0]
+    steps = 0
+    for n in fn.nodes.values():
+        if n['k'] != 'IfStmt':
+            continue
+        ks = [k for k in kids(n) if k is not None]
+        cs = strip(ks[0])
+        if cs['k'] != 'BinaryOperator' or cs.get('op') != '&&':
+            continue
+        a, b = strip(kids(cs)[0]), strip(kids(cs)[1])
+        if a.get('op') != '>=' or b.get('op') != '<=':
+            continue
+        leaf = show(kids(a)[0])
+        lo, hi = const(kids(a)[1]), const(kids(b)[1])
+        asg = [x for x in walk(ks[1]) if x['k'] == 'BinaryOperator' and x.get('op') == '=' and strip(kids(x)[0]).get('n') == 'n']
+        if len(asg) != 1 or lo is None or hi is None:
+            continue
+        steps += 1
+        bad = None
+        if (lo, hi) != (ord('0'), ord('9')):
+            bad = ('range', lo, hi)
+        else:
+            for c in range(lo, hi + 1):
+                for n0 in (0, 1, 429496729):
+                    v = _eval_c(kids(asg[0])[1], {leaf: c, 'n': n0})
+                    if v is None:
+                        raise AnalysisBroken('UTIL-DEC: step not evaluable')
+                    if (v & 0xffffffff) != ((n0 * 10 + c - 48) & 0xffffffff):
+                        bad = (chr(c), n0, v)
+        obs.append(Ob('UTIL-DEC', fn.file, n['l'], fn.q, 'decimal-step', VIOLATED if bad else DISCHARGED,
+                      'decimal digit step is wrong: %r' % (bad,) if bad else '', 'n*10 + digit for 0..9'))
+    # a vanished decimal loop leaves the rule below its floor (analysis broken), it is not by itself a violation
+    return RuleResult('UTIL-DEC', obs, 5, {})
